@@ -30,7 +30,8 @@ PUBLIC_METHODS = {"fit", "fit_predict", "predict", "predict_proba", "score", "pa
 VIEW_CALLS = {"check_array", "validate_data", "asarray", "ascontiguousarray", "squeeze", "transpose", "expand_dims", "ravel", "reshape",
               "atleast_2d", "asanyarray", "swapaxes", "diagonal"}
 ARRAY_PARAMS = {"X", "y", "y_pred", "affinity", "distance", "loc", "scale", "pvals", "must_link", "cannot_link", "feature_names"}
-SINK_METHODS = {"sort", "fill", "resize", "put", "itemset", "partition", "setfield", "byteswap"}
+SINK_METHODS = {"sort", "fill", "resize", "put", "itemset", "partition", "setfield", "byteswap",
+                "append", "extend", "insert", "remove", "pop", "clear", "reverse", "update", "setdefault", "popitem", "add", "discard"}
 SINK_FUNCS = {"copyto": 0, "fill_diagonal": 0, "put": 0, "place": 0, "putmask": 0, "shuffle": 0}
 
 
@@ -350,6 +351,14 @@ def rng_origin(pm, unit, q, f, cfg, rd, st, name, depth):
             src = norm_src(a) if a is not None else ""
             if src in RS_SOURCES:
                 if src == "random_state" and "random_state" in func_params(f):
+                    if f.name.startswith("_") and depth < 3:
+                        # an internal helper: its random_state must be supplied by every internal caller, otherwise
+                        # check_random_state(None) silently falls back to numpy's global generator
+                        ok2, why2 = callers_pass_rng(pm, unit, q, f, "random_state", depth + 1)
+                        if not ok2:
+                            return False, why2
+                        whys.append("check_random_state(random_state parameter); " + why2)
+                        continue
                     whys.append("check_random_state(random_state parameter)")
                     continue
                 whys.append(f"check_random_state({src})")
@@ -357,6 +366,26 @@ def rng_origin(pm, unit, q, f, cfg, rd, st, name, depth):
             return False, f"check_random_state is applied to {src}"
         return False, f"{name} is bound by `{norm_src(d)[:60]}`"
     return True, "; ".join(sorted(set(whys)))
+
+
+_CB = {}
+
+
+def _callback_params(u, fname):
+    """names of parameters of (nested) functions of unit u that are bound, at some call, to an attribute `.<fname>`"""
+    key = (id(u), fname)
+    if key in _CB:
+        return _CB[key]
+    out = set()
+    defs = {n.name: n for n in ast.walk(u.tree) if isinstance(n, ast.FunctionDef)}
+    for c in ast.walk(u.tree):
+        if isinstance(c, ast.Call) and isinstance(c.func, ast.Name) and c.func.id in defs:
+            ps = func_params(defs[c.func.id])
+            for i, a in enumerate(c.args):
+                if isinstance(a, ast.Attribute) and a.attr == fname and i < len(ps):
+                    out.add(ps[i])
+    _CB[key] = out
+    return out
 
 
 def callers_pass_rng(pm, unit, q, f, pname, depth):
@@ -377,7 +406,10 @@ def callers_pass_rng(pm, unit, q, f, pname, depth):
                 cn = call_name(c) or ""
                 fname = f.name
                 hit = (is_method and cn.split(".")[-1] == fname and "." in cn) or (not is_method and cn == fname)
-                if not hit or _enclosing_def(c) is not f2:
+                if not hit and is_method and isinstance(c.func, ast.Name):
+                    # indirect call through a decorator parameter bound to <obj>.<fname> (mlcl: decorate_batch(gemini_model._batchify))
+                    hit = c.func.id in _callback_params(u2, fname)
+                if not hit or not any(p_ is f2 for p_ in parents(c)):
                     continue
                 arg = None
                 if len(c.args) > idx:
@@ -398,6 +430,12 @@ def callers_pass_rng(pm, unit, q, f, pname, depth):
             if norm_src(arg) in RS_SOURCES:
                 continue
             return False, f"{q2} passes {norm_src(arg)}"
+        encl = _enclosing_def(c)
+        if encl is not f2 and isinstance(encl, ast.FunctionDef):
+            # the call sits in a nested function: the argument must be that function's own parameter of the same role
+            if arg.id in func_params(encl):
+                continue
+            f2 = encl
         cfg2 = CFG(f2)
         ok, why = rng_origin(pm, u2, q2, f2, cfg2, cfg2.reaching(), _cfg_stmt(cfg2, c), arg.id, depth + 1)
         if not ok:
@@ -469,6 +507,25 @@ def mutation_rules(pm, ctx):
     work.append((mu, "add_mlcl_constraint", mu.func("add_mlcl_constraint"), frozenset(["must_link", "cannot_link"])))
     ku = pm.unit("gemclus.tree.kauri")
     work.append((ku, "print_kauri_tree", ku.func("print_kauri_tree"), frozenset(["feature_names"])))
+    # hyper-parameter VALUES belong to the caller too (lists, dicts, masks given to the constructor): every method that
+    # reads one is analysed with `self.<hp>` as a caller-owned object
+    from ..e2_tables import TableEval
+    te = TableEval(pm)
+    hps = set()
+    for K in pm.estimators():
+        for h, doms in te.class_constraints(K).items():
+            if any(d.kind == "type" and d.name.split(".")[-1] in ("list", "dict", "ndarray", "set", "_GEMINI") for d in doms):
+                hps.add(h)      # only container / array / object valued hyper-parameters can be mutated in place
+    hp_chains = {f"{r}.{h}" for h in hps for r in ("self", "clf", "gemini_model")}
+    for ci in pm.classes.values():
+        if not any(m.external and m.name == "BaseEstimator" for m in ci.mro):
+            continue
+        for mn, f in ci.methods.items():
+            if mn != "__init__" and any(isinstance(n, ast.Attribute) and attr_chain(n) in hp_chains for n in ast.walk(f)):
+                work.append((ci.unit, f"{ci.name}.{mn}", f, frozenset()))
+    su = pm.unit("gemclus.sparse._base_sparse")
+    for fn in ("_path", "compute_val_score"):
+        work.append((su, fn, su.func(fn), frozenset(["X", "y"])))
     seen = set()
     tainted_attrs = set()
     findings = []
@@ -480,7 +537,7 @@ def mutation_rules(pm, ctx):
             continue
         seen.add(key)
         n_funcs += 1
-        tainted = set(tparams) | {a for a in tainted_attrs}
+        tainted = set(tparams) | {a for a in tainted_attrs} | hp_chains
         # two passes for loops
         for _ in range(2):
             for st in ast.walk(f):
@@ -513,7 +570,8 @@ def mutation_rules(pm, ctx):
             if isinstance(st, ast.AugAssign):
                 b = base_name(st.target)
                 if b in tainted:
-                    findings.append((unit, q, st, f"in-place `{type(st.op).__name__}` on {b}, which may alias a caller's array"))
+                    findings.append((unit, q, st, f"in-place `{type(st.op).__name__}` on {b}, which may alias an object owned by the caller "
+                                     f"(an input array or the value of a hyper-parameter)"))
             elif isinstance(st, ast.Assign):
                 for t in st.targets:
                     if isinstance(t, ast.Subscript):
